@@ -121,6 +121,29 @@ def run(ctx):
                     ctx.violation(R_FLOW, k, "the changed-flag returned by a nested %s is never read: a change of that component is not reported" % what, bd.loc(bb))
         if n:
             ctx.inst(R_FLOW, key, sites=n, sample={"impl": key, "nested_merge_results": n})
+        # ---- accum: a flag written once per element (captured `&mut changed` in a closure, or a bool local written inside a loop) must accumulate
+        for bd in bodies:
+            nres = {dst for _bb, dst, _w in bool_results(bd)}
+            if not nres:
+                continue
+            for bb, i, lhs, rv in bd.assignments():
+                if bd.is_cleanup(bb):
+                    continue
+                through_upvar = not isinstance(lhs, int) and pl_local(lhs) == 1 and "*" in pl_projs(lhs) and bd.kind == "Closure"
+                loop_local = isinstance(lhs, int) and lhs != 0 and bd.locals[lhs] == "bool" and bd.in_cycle(bb) and bd.var_names().get(lhs) is not None
+                if not (through_upvar or loop_local):
+                    continue
+                srcs = [op_place(o) for o in rv.get("ops", [])]
+                from_merge = any(isinstance(p_, int) and _derives(bd, p_, nres) for p_ in srcs if p_ is not None)
+                if not from_merge:
+                    continue
+                R_ACC = ctx.rule("C02.accum", "a changed-flag that is written once per element (inside an iterator closure or a loop) accumulates (`|=`), it is never overwritten by a later element's result", floor=2)
+                k = "%s|%s|flag-write" % (key, fn_key(c, bd))
+                ctx.inst(R_ACC, k, sample={"rvalue": rv["k"], "op": rv.get("op")})
+                reads_self = any(p_ is not None and p_ == lhs for p_ in srcs)
+                if not (rv["k"] == "bin" and rv.get("op") in ("BitOr",) and reads_self):
+                    ctx.violation(R_ACC, k + "|overwrite", "the changed-flag is overwritten with one element's merge result instead of accumulating (`|=`): a change reported for an earlier "
+                                  "element is lost when a later element is already up to date", bd.loc(bb))
         # ---- writefalse / writetrue on the method body itself
         fa = proto.FnAnalysis(c, b, proto.Spec("driver"), None)
         definite, may = self_write_blocks(b, fa)
@@ -185,6 +208,21 @@ def run(ctx):
                     ctx.violation(R_LEN, "%s|%s|mutation-before-old-len" % (key, ident), "self is mutated before the old length is read: growth caused by that mutation is not reported", b.loc(m))
                 if m in b.reachable(start=new) and m != new:
                     ctx.violation(R_LEN, "%s|%s|mutation-after-new-len" % (key, ident), "self is mutated after the new length was read: that growth is not reported", b.loc(m))
+
+
+def _derives(body, local, targets, depth=0):
+    if local in targets:
+        return True
+    if depth > 6:
+        return False
+    for bb, idx, rv in body.defs_of(local):
+        if idx == "term":
+            continue
+        for o in rv.get("ops", []):
+            p = op_place(o)
+            if isinstance(p, int) and _derives(body, p, targets, depth + 1):
+                return True
+    return False
 
 
 def write_before_ret_in_block(b, fa, bb, may_ok=False):
